@@ -106,9 +106,16 @@ def _guard_k(ctx, b, op, guards, depth=3):
 
 
 def establish(ctx):
+    """(re)computed for the tree of `ctx`; what an earlier call published (for another tree analysed in the same process: the thorough
+    tier looks at HEAD, the pinned commit and seeded copies one after the other) is withdrawn first"""
     key = id(ctx)
-    if key in _CACHE:
+    if _CACHE.get("last") == key and key in _CACHE:
         return _CACHE[key]
+    for k in [k for k in panics.PARAM_FIELD_BOUNDS if k[0].startswith(CTOR) or "From<ironplc_dsl::common::Integer>" in k[0]]:
+        del panics.PARAM_FIELD_BOUNDS[k]
+    panics.DURATION_SUM_OK[0] = False
+    _CACHE.clear()
+    _CACHE["last"] = key
     guards = find_guards(ctx)
     sites = []        # (ctor, where, body, loc, k or None, form)
     accounted = set()
